@@ -43,7 +43,7 @@ def val(t, v):
     return {"t": t, "b": list(v.to_bytes(4 if t == "i32" else 8, "little"))}
 
 
-def grid_items(rng, npool, nrand):
+def grid_items(rng, npool, nrand, bitpos=True):
     items = []
     for t, bits in (("i32", 32), ("i64", 64)):
         P = pool(bits, rng, npool, nrand)
@@ -62,7 +62,7 @@ def grid_items(rng, npool, nrand):
                 # (table-driven and loop-driven fallbacks of clz/ctz/popcnt have one case per position)
                 M_ = (1 << bits) - 1
                 U = list(P)
-                for k in range(bits):
+                for k in (range(bits) if bitpos else ()):
                     U += [1 << k, (M_ << k) & M_, (1 << k) - 1, (1 << k) | (1 << (bits - 1)), M_ >> k, (0x5A5A5A5A5A5A5A5B << k) & M_]
                 for a in dict.fromkeys(U):
                     calls.append({"op": "call", "inst": 1, "export": name, "args": [val(t, a)]})
